@@ -34,7 +34,11 @@ def load_known(prop_id):
     if not os.path.exists(p):
         return []
     data = json.load(open(p))
-    return [e for e in data.get("findings", []) if e["property"] == prop_id]
+    found = [e for e in data.get("findings", []) if e["property"] == prop_id]
+    extra = os.environ.get("VFW_EXTRA_KNOWN")      # development aid only: never set by a registered command
+    if extra and os.path.exists(extra):
+        found += [e for e in json.load(open(extra)).get("findings", []) if e["property"] == prop_id]
+    return found
 
 
 def sig_matches(pattern: str, sig: str) -> bool:
